@@ -16,7 +16,7 @@ import (
 
 type c02Addr struct {
 	D   W      `json:"d"`
-	Via string `json:"via"` // build: constructed node by node; frommap: decoded with FromMap (nulls are the shared nil leaf)
+	Via string `json:"via"` // build: constructed node by node; frommap: decoded with FromMap (nulls are the shared nil leaf); dag: built through the builder API so that structurally equal subtrees are ONE node object attached at several positions
 }
 
 type c02Rebuild struct {
@@ -26,8 +26,8 @@ type c02Rebuild struct {
 
 func init() {
 	register(&Prop{ID: "C02", Run: c02Run,
-		Rule: "documents over path-safe keys (a second pool holds digit-only and '-'-prefixed keys: leading zeros, signs, next to their canonical spelling) weighted towards nested lists (depth <= 4) and lists of containers; for every flattened (path, leaf): Lookup, Child chain, pointer evaluation, props.ParsePath; Search with equality and type predicates; rebuild from the flattened pairs under all permutations when <= 5 leaves (else 20 seeded shuffles) for documents whose list items all contain a scalar. Non-trivial: the document has a list or depth >= 2; distinct by case hash.",
-		Assumptions: []string{"keys are non-empty over [A-Za-z0-9_-]",
+		Rule: "documents over path-safe keys (a second pool holds digit-only and '-'-prefixed keys: leading zeros, signs, next to their canonical spelling; a third pool holds letters of any script and case — a key over 'letters, digits, _ and -' may be größe, ключ, 名前 or 𝛼: letters in 2, 3 and 4 UTF-8 bytes, case twins such as maxConn / maxconn, prefix-related siblings — of which every document draws four or five so that they meet) weighted towards nested lists (depth <= 4) and lists of containers, a fifth of them with value-range scalars at the leaves (vr_util.go: both float zeros, 2^53 / 2^63 / 2^64 neighbours, blank / case / Unicode variants of strings, 20+ digit strings, boolean spellings); documents are built node by node, decoded with FromMap, or (dag) built through the builder API with ONE node object attached at two or three positions (a composite subtree copied to a second place, then all structurally equal subtrees built once: what AddValue(k1, n); AddValue(k2, n) produces) — a document's scalar POSITIONS are counted, not its node objects; for every flattened (path, leaf): Lookup, Child chain, pointer evaluation, props.ParsePath; Search with equality and type predicates; rebuild from the flattened pairs under all permutations when <= 5 leaves (else 20 seeded shuffles) for documents whose list items all contain a scalar. Non-trivial: the document has a list or depth >= 2; distinct by case hash.",
+		Assumptions: []string{"keys are non-empty over letters (Unicode category L, any script), ASCII digits, '_' and '-'; the Lean theorems are stated for arbitrary key strings free of '.', '[' and ']'",
 			"the rebuild clause ranges over documents in which every list item contains at least one scalar"}})
 	evals["C02"] = c02Eval
 	shrinkers["C02"] = shrinkJSON
@@ -110,18 +110,67 @@ func c02DigitGen() *DocGen {
 	return g
 }
 
+// c02LetterPool: the four or five names one document of the letter stream draws its keys from: a group of names
+// that are related (case twins, prefixes, the same word in two cases outside ASCII), or a random handful.
+func c02LetterPool(r *rand.Rand) []string {
+	if r.Intn(2) == 0 {
+		return pick(r, [][]string{{"maxConn", "maxconn", "MAXCONN", "max", "maxC"}, {"é", "È", "größe", "GRÖSSE", "ß"}, {"ключ", "Ключ", "a", "k1"},
+			{"名前", "名", "𝛼", "𝛼𝛽", "x-名前"}, {"İ", "ı", "ǅ", "Ω", "ω"}, {"a-é", "é_1", "𝛼9", "0é", "-ß", "_ω"}})
+	}
+	return []string{pick(r, vrLetterKeys), pick(r, vrLetterKeys), pick(r, vrLetterKeys), pick(r, vrLetterKeys), pick(r, vrLetterKeys)}
+}
+
 func c02Run(c *Ctx) {
 	r := c.Rng
 	g := c02Gen()
+	vias := []string{"build", "frommap", "dag"}
 	for i := 0; i < c.N(1500); i++ {
 		c.Tick()
-		c.Do("addr", c02Addr{g.Doc(r), pick(r, []string{"build", "frommap"})})
+		d := g.Doc(r)
+		if i%5 == 4 {
+			d = vrSprinkle(r, d, 0.5, vrOpts{Inf: true})
+		}
+		c.Do("addr", c02Addr{d, pick(r, vias)})
 	}
 	gd := c02DigitGen()
 	for i := 0; i < c.N(500); i++ {
 		c.Tick()
 		c.Dist("addr:digit-and-sign-keys")
-		c.Do("addr", c02Addr{gd.Doc(r), pick(r, []string{"build", "frommap"})})
+		c.Do("addr", c02Addr{gd.Doc(r), pick(r, vias)})
+	}
+	gl := c02Gen()
+	gl.MaxDepth = 4
+	gl.MaxWidth = 4
+	for i := 0; i < c.N(500); i++ {
+		c.Tick()
+		c.Dist("addr:letter-keys(any script, any case)")
+		gl.Keys = c02LetterPool(r)
+		c.Do("addr", c02Addr{gl.Doc(r), pick(r, vias)})
+	}
+	// one node object at two or three positions: a composite subtree is copied to a second place (once or twice), the
+	// dag build then makes every group of structurally equal subtrees one object
+	for i := 0; i < c.N(500); i++ {
+		c.Tick()
+		gg := g
+		switch i % 4 {
+		case 2:
+			gg = gd
+		case 3:
+			gl.Keys = c02LetterPool(r)
+			gg = gl
+		}
+		d := gg.Doc(r)
+		grafts := 0
+		for k, n := 0, 1+r.Intn(2); k < n; k++ {
+			if d2, _, _, ok := vrGraftCopy(r, d, gg.Keys); ok {
+				d = d2
+				grafts++
+			}
+		}
+		if grafts > 0 {
+			c.Dist("addr:one-node-object-at-several-positions")
+		}
+		c.Do("addr", c02Addr{d, "dag"})
 	}
 	gr := c02Gen()
 	gr.MaxDepth = 4
@@ -129,6 +178,8 @@ func c02Run(c *Ctx) {
 		c.Tick()
 		if i%5 == 4 {
 			gr.Keys = c02DigitKeys
+		} else if i%5 == 3 {
+			gr.Keys = c02LetterPool(r)
 		} else {
 			gr.Keys = g.Keys
 		}
@@ -178,8 +229,12 @@ func c02Eval(c *Ctx, kind string, raw []byte) {
 		}
 		out, txt := guard(func() {
 			cb := wireContainer(p.D)
-			if p.Via == "frommap" {
+			switch p.Via {
+			case "frommap":
 				cb = dom.Builder().FromMap(wirePlain(p.D).(map[string]any))
+			case "dag":
+				cb = heapBuildDag(p.D, map[string]dom.Node{}).(dom.ContainerBuilder)
+				c.Direct("a document built with AddValue / ListNode from shared node objects holds what was put in", canon(nodeWire(cb)) == canon(p.D), nodeWire(cb))
 			}
 			c.Dist("via:" + p.Via)
 			fl := cb.Flatten()
